@@ -4,6 +4,7 @@ package fw
 
 import (
 	"bufio"
+	"bytes"
 	"encoding/json"
 	"fmt"
 	"os"
@@ -589,6 +590,32 @@ func RunMain(id, tier string, replayIdx int) int {
 		overall = 25 * time.Minute
 	}
 	deadline := time.Now().Add(overall)
+	// development aid for the mutation sweep: VERIF_FAILFAST=1 ends the run as soon as a worker has written a violation
+	// that is not a listed known finding (never set by the registered commands)
+	var ffStop atomic.Bool
+	var procMu sync.Mutex
+	procs := map[int]*os.Process{}
+	if os.Getenv("VERIF_FAILFAST") != "" && replayIdx < 0 {
+		known := loadKnown(filepath.Join(vdir, "KNOWN_FINDINGS.txt"))
+		go func() {
+			for !ffStop.Load() {
+				time.Sleep(300 * time.Millisecond)
+				outs, _ := filepath.Glob(filepath.Join(work, "out.*"))
+				for _, o := range outs {
+					if failfastHit(o, id, known) {
+						ffStop.Store(true)
+						procMu.Lock()
+						for _, p := range procs {
+							p.Kill()
+						}
+						procMu.Unlock()
+						return
+					}
+				}
+			}
+		}()
+		defer ffStop.Store(true)
+	}
 	for s := 0; s < nw; s++ {
 		wg.Add(1)
 		go func(shard int) {
@@ -624,6 +651,9 @@ func RunMain(id, tier string, replayIdx int) int {
 					ef.Close()
 					return
 				}
+				procMu.Lock()
+				procs[shard] = cmd.Process
+				procMu.Unlock()
 				done := make(chan error, 1)
 				go func() { done <- cmd.Wait() }()
 				var werr error
@@ -640,6 +670,9 @@ func RunMain(id, tier string, replayIdx int) int {
 				ef.Close()
 				finished := readOut(out, agg, &amu)
 				if finished && werr == nil {
+					return
+				}
+				if ffStop.Load() {
 					return
 				}
 				if timedOut {
@@ -1154,4 +1187,35 @@ func ReplayMain(path string) int {
 	}
 	os.Setenv("VERIF_SEED", strconv.FormatInt(rec.Seed, 10))
 	return RunMain(rec.Property, rec.Tier, rec.Idx)
+}
+
+// failfastHit reports whether an output file already holds a violation record that is not a listed known finding.
+func failfastHit(path, id string, known []knownEntry) bool {
+	f, err := os.Open(path)
+	if err != nil {
+		return false
+	}
+	defer f.Close()
+	sc := bufio.NewScanner(f)
+	sc.Buffer(make([]byte, 1<<20), 1<<28)
+	for sc.Scan() {
+		line := sc.Bytes()
+		if !bytes.Contains(line, []byte(`"t":"viol"`)) {
+			continue
+		}
+		var v violRec
+		if json.Unmarshal(line, &v) != nil || v.T != "viol" {
+			continue
+		}
+		listed := false
+		for _, k := range known {
+			if k.Prop == id && k.FP == v.FP {
+				listed = true
+			}
+		}
+		if !listed {
+			return true
+		}
+	}
+	return false
 }
